@@ -393,117 +393,6 @@ def rule_call_validation(ctx, ix):
         ctx.ok("C10.must-pass-through", "compile/_tensor_method.py:TensorMethod.__init__:signature")
     else:
         ctx.fail("C10.must-pass-through", "compile/_tensor_method.py:TensorMethod.__init__:signature", "signature is not one keyword-only parameter per input tensor")
-    # (2) per-argument loop
-    loops = [s for s in doms if isinstance(s, ast.For)]
-    arg_loop = None
-    for l in loops:
-        it = u(l.iter)
-        if it.startswith("zip(") and f"{bound}.values()" in it and "self._input_formats.values()" in it:
-            arg_loop = l
-    ctx.instance("C10.must-pass-through")
-    key = "compile/_tensor_method.py:TensorMethod.__call__:per-argument loop"
-    if arg_loop is None:
-        ctx.fail("C10.must-pass-through", key, "no loop over all bound arguments zipped with all input formats dominates the kernel call")
-    else:
-        problems = []
-        if "strict=True" not in u(arg_loop.iter):
-            problems.append("zip is not strict")
-        names = [u(e) for e in arg_loop.target.elts] if isinstance(arg_loop.target, ast.Tuple) else []
-        it_args = [u(a) for a in arg_loop.iter.args]
-        try:
-            argv = names[it_args.index(f"{bound}.values()")]
-            fmtv = names[it_args.index("self._input_formats.values()")]
-        except (ValueError, IndexError):
-            argv = fmtv = None
-            problems.append("loop targets not understood")
-        if argv:
-            tests = {}
-            for st in arg_loop.body:
-                if isinstance(st, ast.If) and st.body and isinstance(st.body[-1], ast.Raise):
-                    tests[u(st.test)] = u(st.body[-1].exc.func) if isinstance(st.body[-1].exc, ast.Call) else u(st.body[-1].exc)
-            want = {
-                f"not isinstance({argv}, Tensor)": "TypeError",
-                f"{argv}.order != {fmtv}.order": "ValueError",
-                f"tuple({argv}.modes) != tuple({fmtv}.modes)": "ValueError",
-                f"tuple({argv}.mode_ordering) != tuple({fmtv}.ordering)": "ValueError",
-            }
-            for t, e in want.items():
-                if tests.get(t) != e:
-                    problems.append(f"missing check `{t}` -> raise {e}")
-            if any(isinstance(x, (ast.Break, ast.Continue)) for x in ast.walk(arg_loop)):
-                problems.append("loop has break/continue")
-        if problems:
-            ctx.fail("C10.must-pass-through", key, "; ".join(problems))
-        else:
-            ctx.ok("C10.must-pass-through", key)
-    # (3) per-index loop: coverage All / AllButReference
-    ctx.rule("C10.dimension-coverage", "every participant of every index is compared with the reference size", min_instances=1)
-    ctx.instance("C10.dimension-coverage")
-    key = "compile/_tensor_method.py:TensorMethod.__call__:per-index loop"
-    idx_loop = None
-    for l in loops:
-        if re.fullmatch(r"\w+\.items\(\)", u(l.iter)):
-            v = u(l.iter)[: -len(".items()")]
-            src = [s for s in doms if isinstance(s, ast.Assign) and u(s.targets[0]) == v]
-            if src and u(src[0].value) == "self._problem.assignment.expression.index_participants()":
-                idx_loop = l
-    if idx_loop is None:
-        ctx.fail("C10.dimension-coverage", key, "no loop over expression.index_participants().items() dominates the kernel call")
-        return
-    problems = []
-    ixv, partv = (u(e) for e in idx_loop.target.elts) if isinstance(idx_loop.target, ast.Tuple) else ("?", "?")
-    sizes = None
-    for st in idx_loop.body:
-        if isinstance(st, ast.Assign) and isinstance(st.value, ast.ListComp):
-            comp = st.value
-            g = comp.generators[0]
-            if u(g.iter) == partv and not g.ifs and len(comp.generators) == 1 and isinstance(g.target, ast.Tuple):
-                tv, dv = (u(e) for e in g.target.elts)
-                elt = u(comp.elt)
-                if f"{bound}[{tv}].dimensions[{dv}]" in elt:
-                    sizes = u(st.targets[0])
-                else:
-                    problems.append(f"size is not read as {bound}[tensor].dimensions[dimension] of the participant's own tensor: {elt}")
-    if sizes is None:
-        problems.append("sizes are not collected for every participant of the index (comprehension over all participants, no filter)")
-    else:
-        ref = None
-        for st in idx_loop.body:
-            if isinstance(st, ast.Assign) and re.fullmatch(rf"{sizes}\[0\]\[2\]", u(st.value)):
-                ref = u(st.targets[0])
-        cmp_loop = None
-        for st in idx_loop.body:
-            if isinstance(st, ast.For):
-                it = u(st.iter)
-                if it in (f"{sizes}[1:]", sizes):
-                    cmp_loop = st
-                elif it.startswith(sizes):
-                    problems.append(f"comparison loop ranges over `{it}`: only part of the participants is compared (coverage Partial)")
-        if ref is None:
-            problems.append("no reference size taken from the first participant")
-        if cmp_loop is None:
-            if not any("Partial" in p for p in problems):
-                problems.append("no loop comparing all other participants with the reference")
-        else:
-            ok = False
-            for st in cmp_loop.body:
-                if isinstance(st, ast.If) and any(isinstance(x, ast.Raise) and "ValueError" in u(x) for x in st.body):
-                    t = u(st.test)
-                    tnames = [u(e) for e in cmp_loop.target.elts] if isinstance(cmp_loop.target, ast.Tuple) else [u(cmp_loop.target)]
-                    if ref and re.fullmatch(rf"(\w+) != {ref}|{ref} != (\w+)", t) and any(n in t for n in tnames):
-                        ok = True
-            if not ok:
-                problems.append("comparison loop does not raise ValueError when a size differs from the reference")
-            if any(isinstance(x, (ast.Break, ast.Continue)) for x in ast.walk(cmp_loop)):
-                problems.append("comparison loop has break/continue (coverage Partial)")
-        if not any(isinstance(st, ast.Assign) and u(st.targets[0]) == f"index_sizes[{ixv}]" for st in idx_loop.body):
-            problems.append("reference size is not recorded for the index")
-    if any(isinstance(x, (ast.Break, ast.Continue)) for x in idx_loop.body):
-        problems.append("index loop has break/continue")
-    if problems:
-        ctx.fail("C10.dimension-coverage", key, "; ".join(problems))
-    else:
-        ctx.ok("C10.dimension-coverage", key)
     # output dimensions from target indexes; BroadcastTargetIndexError guarantees the key exists
     ctx.instance("C10.must-pass-through")
     od = [s for s in doms if isinstance(s, ast.Assign) and u(s.targets[0]) == "output_dimensions"]
@@ -528,6 +417,158 @@ def rule_call_validation(ctx, ix):
         ctx.ok("C10.must-pass-through", key)
     else:
         ctx.fail("C10.must-pass-through", key, "kernel is not called with (output, inputs) in the order of problem.formats")
+
+
+def rule_call_semantics(ctx, ix):
+    """TensorMethod.__call__ is evaluated abstractly (vf/srules/symeval.py) on symbolic arguments for a
+    set of assignments: the kernel may be entered only on paths where every pair of dimensions sharing
+    an index has been compared equal; any argument of the wrong kind/order/modes/ordering and any
+    missing/extra/positional argument must raise TypeError/ValueError before the kernel is entered."""
+    from . import symeval as S
+
+    ctx.rule("C10.call-semantics", "abstract evaluation of TensorMethod.__call__: no inconsistent argument reaches the kernel", min_instances=30)
+    fn = ix.func(f"{TM}.__call__").node
+
+    def parse(text):
+        lhs, rhs = text.split("=")
+        occ = re.findall(r"(\w+)\(([\w,]*)\)", rhs)
+        t = re.match(r"\s*(\w+)\(([\w,]*)\)", lhs)
+        return (t.group(1), tuple(_split(t.group(2)))), [(n, tuple(_split(ix_))) for n, ix_ in occ]
+
+    def scenario(text, participant_order=0):
+        (tname, tix), occ = parse(text)
+        orders = {}
+        for n, ixs in occ:
+            orders.setdefault(n, len(ixs))
+        parts = {}
+        for n, ixs in occ:
+            for d, i in enumerate(ixs):
+                parts.setdefault(i, [])
+                if (n, d) not in parts[i]:
+                    parts[i].append((n, d))
+        if participant_order == 1:
+            parts = {i: list(reversed(v)) for i, v in parts.items()}
+        if participant_order == 2:
+            parts = {i: v[1:] + v[:1] for i, v in parts.items()}
+        in_formats = {n: S.make_format((S.DENSE,) * o, tuple(range(o))) for n, o in orders.items()}
+        out_format = S.make_format((S.COMPRESSED,) * len(tix), tuple(range(len(tix))))
+        formats = {tname: out_format, **in_formats}
+
+        def bind(*args, **kwargs):
+            if args or set(kwargs) != set(in_formats):
+                raise S.Raised("TypeError")
+            return S.Obj("BoundArguments", arguments={n: kwargs[n] for n in in_formats})
+
+        def evaluate(*args):
+            raise S.KernelEntered(args)
+
+        expression = S.Obj("Expression", index_participants=lambda: {i: tuple(v) for i, v in parts.items()})
+        assignment = S.Obj("Assignment", expression=expression, target=S.Obj("TargetTensor", name=tname, indexes=tix))
+        self_ = S.Obj(
+            "TensorMethod",
+            signature=S.Obj("Signature", bind=bind),
+            _input_formats=in_formats,
+            _output_format=out_format,
+            _output_name=tname,
+            _problem=S.Obj("Problem", assignment=assignment, formats=formats),
+            _evaluate=evaluate,
+        )
+        tensors = {}
+        for n, o in orders.items():
+            t = S.make_tensor(n, (S.DENSE,) * o, tuple(range(o)))
+            t.attrs["cffi_tensor"] = S.Obj("cffi", of=n)
+            tensors[n] = t
+        return self_, tensors, parts, formats
+
+    def report(key, problems):
+        ctx.instance("C10.call-semantics")
+        if problems:
+            ctx.fail("C10.call-semantics", key, "; ".join(sorted(set(problems)))[:700])
+        else:
+            ctx.ok("C10.call-semantics", key)
+
+    assignments = [
+        "y(i) = A(i,j) * x(j)",
+        "B(i,k) = A(i,j) * A(j,k)",
+        "y(i) = A(i,j) * A(j,i)",
+        "a(i) = b(i) + c(i) + d(i)",
+        "o() = x(i) * V(i,j) * x(j)",
+        "A(i,j) = B(i,j) + C(j,i)",
+        "a(i) = b(i)",
+        "A(i,j,k) = B(i,j,k) * c(k) + D(k,j,i)",
+    ]
+    for text in assignments:
+        for po in (0, 1, 2):
+            self_, tensors, parts, formats = scenario(text, po)
+            key = f"compile/_tensor_method.py:TensorMethod.__call__:{text} [participant order {po}]"
+            problems = []
+            entered = 0
+            for assume, (kind, val) in S.explore(fn, [self_], dict(tensors)):
+                if kind == "uninterpretable":
+                    problems.append(f"validation code not interpretable: {val}")
+                    continue
+                differ = [k for k, v in assume.items() if v is False]
+                if kind == "kernel":
+                    entered += 1
+                    if differ:
+                        problems.append(f"kernel entered although dimensions {differ[0]} may differ")
+                    # every index: all participants' sizes connected by equalities assumed on this path
+                    parent = {}
+
+                    def find(x):
+                        parent.setdefault(x, x)
+                        while parent[x] != x:
+                            parent[x] = parent[parent[x]]
+                            x = parent[x]
+                        return x
+
+                    for (a, b), v in assume.items():
+                        if v:
+                            parent[find(a)] = find(b)
+                    for i, plist in parts.items():
+                        roots = {find(f"{n}.dim{d}") for n, d in plist}
+                        if len(roots) > 1:
+                            problems.append(f"kernel entered without comparing all dimensions that share index {i}: {plist}")
+                    want = [S.Obj] + [tensors[n].attrs["cffi_tensor"] for n in list(formats)[1:]]
+                    got = list(val)
+                    if len(got) != len(formats) or any(g is not w for g, w in zip(got[1:], want[1:])):
+                        problems.append("kernel arguments are not (output, inputs in the order of problem.formats)")
+                elif kind == "raise":
+                    if not differ:
+                        problems.append(f"consistent arguments raise {val}")
+                    elif val != "ValueError":
+                        problems.append(f"differing dimensions raise {val} instead of ValueError")
+                else:
+                    problems.append(f"__call__ returned {val!r} without entering the kernel")
+            if entered == 0:
+                problems.append("the kernel is never entered for consistent arguments")
+            report(key, problems)
+    # inconsistent arguments
+    text = "y(i) = A(i,j) * x(j)"
+    bad_cases = []
+    self_, tensors, parts, formats = scenario(text)
+    bad_cases.append(("non-Tensor argument", {**tensors, "x": S.Obj("Other")}, (), "TypeError"))
+    t = S.make_tensor("x", (S.DENSE, S.DENSE), (0, 1)); t.attrs["cffi_tensor"] = S.Obj("cffi")
+    bad_cases.append(("argument of the wrong order", {**tensors, "x": t}, (), "ValueError"))
+    t = S.make_tensor("x", (S.COMPRESSED,), (0,)); t.attrs["cffi_tensor"] = S.Obj("cffi")
+    bad_cases.append(("argument with the wrong modes", {**tensors, "x": t}, (), "ValueError"))
+    t = S.make_tensor("A", (S.DENSE, S.DENSE), (1, 0)); t.attrs["cffi_tensor"] = S.Obj("cffi")
+    bad_cases.append(("argument with the wrong mode ordering", {**tensors, "A": t}, (), "ValueError"))
+    t = S.make_tensor("A", (S.DENSE, S.COMPRESSED), (0, 1)); t.attrs["cffi_tensor"] = S.Obj("cffi")
+    bad_cases.append(("first argument with the wrong modes", {**tensors, "A": t}, (), "ValueError"))
+    bad_cases.append(("missing argument", {"A": tensors["A"]}, (), "TypeError"))
+    bad_cases.append(("extra argument", {**tensors, "z": tensors["x"]}, (), "TypeError"))
+    bad_cases.append(("positional argument", {"x": tensors["x"]}, (tensors["A"],), "TypeError"))
+    for label, kwargs, args, want in bad_cases:
+        problems = []
+        for assume, (kind, val) in S.explore(fn, [self_, *args], kwargs):
+            if kind == "kernel":
+                problems.append("the kernel is entered")
+            elif kind == "raise" and val != want:
+                problems.append(f"raises {val}, documented is {want}")
+            elif kind in ("return", "uninterpretable"):
+                problems.append(f"outcome {kind} {val!r}")
+        report(f"compile/_tensor_method.py:TensorMethod.__call__:{label} -> {want}", problems)
 
 
 def rule_problem_validation(ctx, ix):
@@ -596,163 +637,208 @@ def rule_dunders(ctx, ix):
             ctx.fail("C11.dunder-table", key, f"returns `{norm(rets[0].value) if rets else None}`, the data model requires `{want}`")
 
 
-def instantiate_template(node, env):
-    """Instantiate an f-string / constant with {name} placeholders from env."""
-    if isinstance(node, ast.Constant) and isinstance(node.value, str):
-        return node.value
-    if isinstance(node, ast.JoinedStr):
-        out = ""
-        for v in node.values:
-            if isinstance(v, ast.Constant):
-                out += v.value
-            elif isinstance(v, ast.FormattedValue) and isinstance(v.value, ast.Name) and v.value.id in env:
-                out += env[v.value.id]
-            else:
-                return None
-        return out
-    return None
-
-
 ASSIGN_RE = re.compile(r"^(\w+)\(([\w,]*)\) = (\w+)\(([\w,]*)\) ([+\-*]) (\w+)\(([\w,]*)\)$")
 
 
-def rule_operator_templates(ctx, ix):
-    """The synthesised assignment strings mean the operation; shape guards dominate; format rules."""
-    ctx.rule("C11.templates", "synthesised assignments are the element-wise / einsum forms of the operator", min_instances=7)
-    f = ix.func(f"{T_MOD}.evaluate_binary_operator")
-    calls = [c for c in ix.calls_in(f) if u(c.func) == "evaluate_tensora"]
-    if len(calls) != 3:
-        raise AnalysisError(f"anchor vanished: expected 3 evaluate_tensora calls in evaluate_binary_operator, found {len(calls)}")
-    kinds = []
-    for c in calls:
-        # which branch: tensor-tensor, tensor-scalar, scalar-tensor by enclosing if test
-        tests = [u(t) for t in arm_tests(f.node, c)]
-        kinds.append(tests[0] if tests else "?")
-    want_kind = {
-        "isinstance(left, Tensor) and isinstance(right, Tensor)": ("T", "T"),
-        "isinstance(left, Tensor) and isinstance(right, Real)": ("T", "S"),
-        "isinstance(left, Real) and isinstance(right, Tensor)": ("S", "T"),
-    }
-    for c, test in zip(calls, kinds):
-        ctx.instance("C11.templates")
-        key = f"tensor.py:evaluate_binary_operator:{test}"
-        if test not in want_kind:
-            ctx.fail("C11.templates", key, "evaluate_tensora called under an unrecognised operand-kind test")
-            continue
-        lk, rk = want_kind[test]
-        problems = []
-        for op in "+-*":
-            text = instantiate_template(c.args[0], {"indexes": "i0,i1,i2", "operator": op})
-            m = ASSIGN_RE.match(text or "")
-            if not m:
-                problems.append(f"template `{u(c.args[0])}` does not instantiate to `out(ix) = left(ix) op right(ix)`")
-                break
-            out, oix, l, lix, o, r, rix = m.groups()
-            if (out, l, r) != ("output", "left", "right"):
-                problems.append("operands are not named output/left/right in this order")
-            if o != op:
-                problems.append(f"operator {op} is printed as {o}")
-            if oix != "i0,i1,i2":
-                problems.append("target does not carry the operand's indexes")
-            if lix != ("i0,i1,i2" if lk == "T" else ""):
-                problems.append(f"left operand indexed ({lix})")
-            if rix != ("i0,i1,i2" if rk == "T" else ""):
-                problems.append(f"right operand indexed ({rix})")
-        kw = {k.arg: u(k.value) for k in c.keywords}
-        want_kw = {
-            ("T", "T"): {"left": "left", "right": "right"},
-            ("T", "S"): {"left": "left", "right": "Tensor.from_lol(float(right))"},
-            ("S", "T"): {"left": "Tensor.from_lol(float(left))", "right": "right"},
-        }[(lk, rk)]
-        if kw != want_kw:
-            problems.append(f"operands bound as {kw}")
+def _split(ix):
+    return ix.split(",") if ix else []
+
+
+def _fmt_modes(text, n):
+    """Parse a format string produced for the output: returns (mode chars, ordering) or None."""
+    m = re.fullmatch(r"([ds])*", text)
+    if m is not None:
+        return tuple(text), tuple(range(len(text)))
+    m = re.fullmatch(r"(?:[ds]\d+)*", text)
+    if m is not None:
+        pairs = re.findall(r"([ds])(\d+)", text)
+        return tuple(p[0] for p in pairs), tuple(int(p[1]) for p in pairs)
+    return None
+
+
+def rule_operator_semantics(ctx, ix):
+    """The operator layer is evaluated abstractly (vf/srules/symeval.py) over every combination of
+    operand orders <= 3, modes and mode orderings, with symbolic dimension sizes: the synthesised
+    assignment must be the element-wise / einsum form of the operator, dimension-wise; the shape guard
+    must raise ValueError on exactly the paths where the compared dimensions may differ; the output
+    format must follow the documented rule for natural orderings."""
+    from . import symeval as S
+
+    ctx.rule("C11.operator-semantics", "synthesised assignment, shape guard and output format of every operator case (abstract evaluation over all format metadata up to order 3)", min_instances=500)
+    fb = ix.func(f"{T_MOD}.evaluate_binary_operator").node
+    fm = ix.func(f"{T_MOD}.evaluate_matrix_multiplication_operator").node
+    natural = lambda t: t.attrs["format"].attrs["ordering"] == tuple(range(t.attrs["order"]))  # noqa: E731
+
+    def report(key, problems):
+        ctx.instance("C11.operator-semantics")
         if problems:
-            ctx.fail("C11.templates", key, "; ".join(sorted(set(problems))))
+            ctx.fail("C11.operator-semantics", key, "; ".join(sorted(set(problems)))[:600])
         else:
-            ctx.ok("C11.templates", key)
-    # indexes_string: one distinct index per dimension
-    ctx.instance("C11.templates")
-    inner = ix.func(f"{T_MOD}.evaluate_binary_operator.<locals>.indexes_string").node
-    if "','.join((f'i{i}' for i in range(tensor.order)))" in u(inner):
-        ctx.ok("C11.templates", "tensor.py:evaluate_binary_operator.indexes_string")
-    else:
-        ctx.fail("C11.templates", "tensor.py:evaluate_binary_operator.indexes_string", "index list is not one distinct index per dimension of the operand")
-    # indexes come from the tensor operand
-    s = u(f.node)
-    ctx.instance("C11.templates")
-    n_left = s.count("indexes = indexes_string(left)")
-    n_right = s.count("indexes = indexes_string(right)")
-    if n_left == 2 and n_right == 1:
-        ctx.ok("C11.templates", "tensor.py:evaluate_binary_operator:index list from the tensor operand")
-    else:
-        ctx.fail("C11.templates", "tensor.py:evaluate_binary_operator:index list from the tensor operand", "index list is not computed from the tensor operand of each case")
-    # matmul: four einsum strings
-    g = ix.func(f"{T_MOD}.evaluate_matrix_multiplication_operator")
-    mcalls = [c for c in ix.calls_in(g) if u(c.func) == "evaluate_tensora"]
-    want = {
-        (1, 1): ("output() = left(i) * right(i)", "left.dimensions != right.dimensions", "''"),
-        (2, 1): ("output(i) = left(i,j) * right(j)", "left.dimensions[1] != right.dimensions[0]", "output_format"),
-        (1, 2): ("output(j) = left(i) * right(i,j)", "left.dimensions[0] != right.dimensions[0]", "output_format"),
-        (2, 2): ("output(i,k) = left(i,j) * right(j,k)", "left.dimensions[1] != right.dimensions[0]", "output_format"),
+            ctx.ok("C11.operator-semantics", key)
+
+    def describe(t):
+        if t.tag != "Tensor":
+            return t.tag
+        return t.attrs["format"].attrs["deparse"]() or "scalar"
+
+    def configs(n):
+        fmts = list(S.all_formats(n))
+        if n <= 2:
+            return fmts
+        # order 3: every ordering with all-dense and all-compressed modes, every mode combination in natural order
+        return [f for f in fmts if len(set(id(m) for m in f[0])) == 1 or f[1] == tuple(range(n))]
+
+    # ---- element-wise operators, tensor (x) tensor
+    for n in range(0, 4):
+        for (lm, lo), (rm, ro) in itertools.product(configs(n), repeat=2):
+            if n == 3 and lo != tuple(range(3)) and ro != tuple(range(3)) and (lm[0] is not rm[0]):
+                continue
+            for op in "+-*":
+                left = S.make_tensor("left", lm, lo)
+                right = S.make_tensor("right", rm, ro)
+                key = f"tensor.py:evaluate_binary_operator:{describe(left)} {op} {describe(right)}"
+                problems = []
+                for assume, (kind, val) in S.explore(fb, [left, right, op]):
+                    differ = [k for k, v in assume.items() if v is False]
+                    if kind == "uninterpretable":
+                        problems.append(f"operator code not interpretable: {val}")
+                        continue
+                    if differ:
+                        if not (kind == "raise" and val == "ValueError"):
+                            problems.append(f"dimensions {differ[0]} may differ, yet the outcome is {kind} {val if kind == 'raise' else ''} instead of ValueError")
+                        continue
+                    if kind != "return" or not isinstance(val, S.Call):
+                        problems.append(f"equal shapes give {kind} {val!r} instead of an evaluation")
+                        continue
+                    # every dimension pair must have been compared on this path
+                    for d in range(n):
+                        if assume.get(tuple(sorted((f"left.dim{d}", f"right.dim{d}")))) is not True:
+                            problems.append(f"dimension {d} of the operands is never compared before the kernel runs")
+                    text = val.args[0] if val.args else None
+                    m = ASSIGN_RE.match(text) if isinstance(text, str) else None
+                    if not m:
+                        problems.append(f"assignment `{text}` is not `output(..) = left(..) {op} right(..)`")
+                        continue
+                    out, oi, l, li, o, r, ri = m.groups()
+                    oi, li, ri = _split(oi), _split(li), _split(ri)
+                    if (out, l, r) != ("output", "left", "right") or o != op:
+                        problems.append(f"assignment `{text}` does not apply {op} to left and right in this order")
+                    if len(oi) != n or len(set(oi)) != n:
+                        problems.append(f"target of `{text}` does not have {n} distinct indexes")
+                    if li != oi or ri != oi:
+                        problems.append(f"`{text}`: dimension d of an operand is not indexed like dimension d of the result (not element-wise)")
+                    if val.kwargs.get("left") is not left or val.kwargs.get("right") is not right:
+                        problems.append("operands are not passed as left=left, right=right")
+                    fmt = val.args[1] if len(val.args) > 1 else val.kwargs.get("output_format")
+                    pf = _fmt_modes(fmt, n) if isinstance(fmt, str) else None
+                    if pf is None or len(pf[0]) != n:
+                        problems.append(f"output format `{fmt}` does not have order {n}")
+                    elif natural(left) and natural(right):
+                        want = tuple(
+                            ("d" if (a is S.DENSE and b is S.DENSE) else "s") if op == "*" else ("d" if (a is S.DENSE or b is S.DENSE) else "s")
+                            for a, b in zip(lm, rm)
+                        )
+                        if pf[0] != want or pf[1] != tuple(range(n)):
+                            problems.append(f"output format `{fmt}` for {op}: the documented rule gives `{''.join(want)}`")
+                report(key, problems)
+    # ---- tensor (x) scalar and scalar (x) tensor
+    for n in range(0, 4):
+        for tm, to in configs(n):
+            for op in "+-*":
+                for side in ("left", "right"):
+                    t = S.make_tensor(side, tm, to)
+                    sc = S.Obj("Real")
+                    args = [t, sc, op] if side == "left" else [sc, t, op]
+                    key = f"tensor.py:evaluate_binary_operator:{describe(args[0])} {op} {describe(args[1])}"
+                    problems = []
+                    for assume, (kind, val) in S.explore(fb, args):
+                        if kind != "return" or not isinstance(val, S.Call):
+                            problems.append(f"outcome {kind} {val!r} instead of an evaluation")
+                            continue
+                        text = val.args[0] if val.args else None
+                        m = ASSIGN_RE.match(text) if isinstance(text, str) else None
+                        if not m:
+                            problems.append(f"assignment `{text}` not understood")
+                            continue
+                        out, oi, l, li, o, r, ri = m.groups()
+                        oi, li, ri = _split(oi), _split(li), _split(ri)
+                        ti, si = (li, ri) if side == "left" else (ri, li)
+                        if (out, l, r) != ("output", "left", "right") or o != op:
+                            problems.append(f"assignment `{text}` does not apply {op} to left and right in this order")
+                        if len(oi) != n or len(set(oi)) != n or ti != oi or si != []:
+                            problems.append(f"`{text}` is not the scalar broadcast of an order-{n} tensor")
+                        tk, sk = val.kwargs.get(side), val.kwargs.get("right" if side == "left" else "left")
+                        if tk is not t or not (isinstance(sk, S.Obj) and sk.tag == "Tensor" and sk.attrs["order"] == 0):
+                            problems.append("operands are not (tensor, order-0 tensor of the number) on their own sides")
+                        fmt = val.args[1] if len(val.args) > 1 else None
+                        want = t.attrs["format"].attrs["deparse"]() if op == "*" else "d" * n
+                        if fmt != want:
+                            problems.append(f"output format `{fmt}`: the documented rule gives `{want}`")
+                    report(key, problems)
+    # ---- unsupported operands
+    for args, label in (([S.Obj("Real"), S.Obj("Real"), "+"], "number + number"), ([S.Obj("Other"), S.make_tensor("right", (), ()), "*"], "other * tensor")):
+        outs = list(S.explore(fb, args))
+        problems = [] if all(k == "return" and v is S.NOT_IMPLEMENTED for _, (k, v) in outs) else [f"outcome {outs}"]
+        report(f"tensor.py:evaluate_binary_operator:{label} -> NotImplemented", problems)
+    # ---- matrix multiplication
+    want_einsum = {
+        (1, 1): "output() = left(i) * right(i)",
+        (2, 1): "output(i) = left(i,j) * right(j)",
+        (1, 2): "output(j) = left(i) * right(i,j)",
+        (2, 2): "output(i,k) = left(i,j) * right(j,k)",
     }
-    seen = set()
-    for c in mcalls:
-        tests = [u(t) for t in arm_tests(g.node, c)]
-        m = None
-        for t in tests:
-            m = m or re.fullmatch(r"left\.order == (\d) and right\.order == (\d)", t)
-        ctx.instance("C11.templates")
-        if not m:
-            ctx.fail("C11.templates", f"tensor.py:evaluate_matrix_multiplication_operator:{norm(c)[:50]}", "einsum call not under an order test")
-            continue
-        case = (int(m.group(1)), int(m.group(2)))
-        seen.add(case)
-        key = f"tensor.py:evaluate_matrix_multiplication_operator:orders {case}"
-        text = instantiate_template(c.args[0], {})
-        problems = []
-        if case not in want:
-            problems.append("unexpected order case")
-        else:
-            wtext, wguard, wfmt = want[case]
-            if text is None or not einsum_equal(text, wtext):
-                problems.append(f"assignment `{text}` is not the product contracting the shared dimension (`{wtext}` up to index renaming)")
-            # shape guard dominates the call and raises ValueError
-            doms = dominators_of(g.node, c)
-            guards = [d for d in doms if isinstance(d, ast.If) and d.body and isinstance(d.body[-1], ast.Raise) and "ValueError" in u(d.body[-1])]
-            if not any(u(d.test) == wguard for d in guards):
-                problems.append(f"the shape guard `{wguard}` -> ValueError does not dominate the call")
-            kw = {k.arg: u(k.value) for k in c.keywords}
-            if kw != {"left": "left", "right": "right"}:
-                problems.append(f"operands bound as {kw}")
-        if problems:
-            ctx.fail("C11.templates", key, "; ".join(problems))
-        else:
-            ctx.ok("C11.templates", key)
-    for case in sorted(set(want) - seen):
-        ctx.fail("C11.templates", f"tensor.py:evaluate_matrix_multiplication_operator:orders {case}", "no einsum for this order case")
-    # binary operator shape guard
-    ctx.instance("C11.templates")
-    tt = [c for c, t in zip(calls, kinds) if t.startswith("isinstance(left, Tensor) and isinstance(right, Tensor)")]
-    ok = False
-    if tt:
-        doms = dominators_of(f.node, tt[0])
-        ok = any(isinstance(d, ast.If) and u(d.test) == "left.dimensions != right.dimensions" and d.body and isinstance(d.body[-1], ast.Raise) and "ValueError" in u(d.body[-1]) for d in doms)
-    if ok:
-        ctx.ok("C11.templates", "tensor.py:evaluate_binary_operator:shape guard")
-    else:
-        ctx.fail("C11.templates", "tensor.py:evaluate_binary_operator:shape guard", "`left.dimensions != right.dimensions` -> ValueError does not dominate the element-wise evaluation")
-    # NotImplemented for non-Tensor / non-Real operands
-    for fn, q in ((f.node, "evaluate_binary_operator"), (g.node, "evaluate_matrix_multiplication_operator")):
-        ctx.instance("C11.templates")
-        last = fn.body[-1]
-        cur = last
-        while isinstance(cur, ast.If) and len(cur.orelse) == 1 and isinstance(cur.orelse[0], ast.If):
-            cur = cur.orelse[0]
-        ok = isinstance(cur, ast.If) and cur.orelse and u(cur.orelse[-1]) == "return NotImplemented"
-        if ok:
-            ctx.ok("C11.templates", f"tensor.py:{q}:NotImplemented")
-        else:
-            ctx.fail("C11.templates", f"tensor.py:{q}:NotImplemented", "unsupported operand types do not return NotImplemented")
+    for nl, nr in itertools.product(range(0, 4), repeat=2):
+        for (lm, lo), (rm, ro) in itertools.product(configs(nl), configs(nr)):
+            if nl == 3 or nr == 3:
+                if not (lo == tuple(range(nl)) and ro == tuple(range(nr)) and len(set(map(id, lm + rm))) <= 1):
+                    continue
+            left = S.make_tensor("left", lm, lo)
+            right = S.make_tensor("right", rm, ro)
+            key = f"tensor.py:evaluate_matrix_multiplication_operator:{describe(left)} @ {describe(right)}"
+            problems = []
+            for assume, (kind, val) in S.explore(fm, [left, right]):
+                if kind == "uninterpretable":
+                    problems.append(f"operator code not interpretable: {val}")
+                    continue
+                if (nl, nr) not in want_einsum:
+                    if not (kind == "raise" and val == "ValueError"):
+                        problems.append(f"orders {(nl, nr)} give {kind} instead of the documented ValueError")
+                    continue
+                differ = [k for k, v in assume.items() if v is False]
+                if differ:
+                    if not (kind == "raise" and val == "ValueError"):
+                        problems.append(f"dimensions {differ[0]} may differ, yet the outcome is {kind} instead of ValueError")
+                    continue
+                if kind != "return" or not isinstance(val, S.Call):
+                    problems.append(f"compatible shapes give {kind} {val!r} instead of an evaluation")
+                    continue
+                text = val.args[0] if val.args else None
+                if not isinstance(text, str) or not einsum_equal(text, want_einsum[(nl, nr)]):
+                    problems.append(f"assignment `{text}` is not `{want_einsum[(nl, nr)]}` up to index renaming")
+                    continue
+                m = re.match(r"^(\w+)\(([\w,]*)\) = (\w+)\(([\w,]*)\) \* (\w+)\(([\w,]*)\)$", text)
+                oi, li, ri = _split(m.group(2)), _split(m.group(4)), _split(m.group(6))
+                for name in set(li) & set(ri):
+                    pair = tuple(sorted((f"left.dim{li.index(name)}", f"right.dim{ri.index(name)}")))
+                    if assume.get(pair) is not True:
+                        problems.append(f"contracted dimensions {pair} are never compared before the kernel runs")
+                if val.kwargs.get("left") is not left or val.kwargs.get("right") is not right:
+                    problems.append("operands are not passed as left=left, right=right")
+                fmt = val.args[1] if len(val.args) > 1 else None
+                want = ""
+                for name in oi:
+                    src, idxs = (left, li) if name in li else (right, ri)
+                    d = idxs.index(name)
+                    f_ = src.attrs["format"]
+                    want += f_.attrs["modes"][f_.attrs["ordering"].index(d)].attrs["character"]
+                if fmt != want:
+                    problems.append(f"output format `{fmt}`: the modes of the operands' outer dimensions give `{want}`")
+            report(key, problems)
+    outs = list(S.explore(fm, [S.Obj("Other"), S.make_tensor("right", (S.DENSE,), (0,))]))
+    report(
+        "tensor.py:evaluate_matrix_multiplication_operator:other @ tensor -> NotImplemented",
+        [] if all(k == "return" and v is S.NOT_IMPLEMENTED for _, (k, v) in outs) else [f"outcome {outs}"],
+    )
 
 
 def einsum_equal(a, b):
@@ -777,108 +863,3 @@ def einsum_equal(a, b):
     return True
 
 
-def rule_format_tables(ctx, ix):
-    """Truth tables of the conditional expressions choosing the output format."""
-    ctx.rule("C11.format-rules", "output format: intersection of density for *, union for + and -, operand's format for scalars", min_instances=5)
-    f = ix.func(f"{T_MOD}.evaluate_binary_operator")
-    # find the two generator expressions "d" if <cond> else "s"
-    comps = []
-    for n in ast.walk(f.node):
-        if isinstance(n, ast.GeneratorExp) and isinstance(n.elt, ast.IfExp):
-            tests = [u(t) for t in arm_tests(f.node, n)]
-            comps.append((n, tests))
-    found = {}
-    for n, tests in comps:
-        op = None
-        for t in tests:
-            if t == "operator == '*'":
-                op = "*"
-            elif t in ("operator in ('+', '-')", "operator in ('-', '+')"):
-                op = "+-"
-        if op is None:
-            continue
-        g = n.generators[0]
-        if not (u(g.iter) == "zip(left.format.modes, right.format.modes, strict=True)" and isinstance(g.target, ast.Tuple)):
-            found[op] = "modes are not zipped level by level (strict)"
-            continue
-        a, b = (u(e) for e in g.target.elts)
-        table = {}
-        for va, vb in itertools.product(("dense", "compressed"), repeat=2):
-            env = {a: va, b: vb}
-            table[(va, vb)] = eval_ifexp(n.elt, env)
-        want = {
-            "*": {(x, y): "d" if x == "dense" and y == "dense" else "s" for x, y in table},
-            "+-": {(x, y): "d" if x == "dense" or y == "dense" else "s" for x, y in table},
-        }[op]
-        found[op] = None if table == want else f"truth table {table}"
-    for op, label in (("*", "* => dense iff both dense"), ("+-", "+,- => dense iff either dense")):
-        ctx.instance("C11.format-rules")
-        key = f"tensor.py:evaluate_binary_operator:{label}"
-        if op not in found:
-            ctx.fail("C11.format-rules", key, "format rule not found")
-        elif found[op]:
-            ctx.fail("C11.format-rules", key, found[op])
-        else:
-            ctx.ok("C11.format-rules", key)
-    # scalar cases
-    s = u(f.node)
-    for label, frag in (
-        ("tensor * scalar keeps the tensor's format", "output_format = left.format.deparse()"),
-        ("scalar * tensor keeps the tensor's format", "output_format = right.format.deparse()"),
-        ("tensor +- scalar is dense", "output_format = 'd' * left.order"),
-        ("scalar +- tensor is dense", "output_format = 'd' * right.order"),
-    ):
-        ctx.instance("C11.format-rules")
-        if frag in s:
-            ctx.ok("C11.format-rules", f"tensor.py:evaluate_binary_operator:{label}")
-        else:
-            ctx.fail("C11.format-rules", f"tensor.py:evaluate_binary_operator:{label}", f"`{frag}` not found")
-    # the computed format is what is passed
-    ctx.instance("C11.format-rules")
-    calls = [c for c in ix.calls_in(f) if u(c.func) == "evaluate_tensora"]
-    if all(len(c.args) >= 2 and u(c.args[1]) == "output_format" for c in calls):
-        ctx.ok("C11.format-rules", "tensor.py:evaluate_binary_operator:format passed")
-    else:
-        ctx.fail("C11.format-rules", "tensor.py:evaluate_binary_operator:format passed", "the computed output format is not what is passed to evaluate_tensora")
-    # matmul: modes of the operands' outer dimensions
-    g = ix.func(f"{T_MOD}.evaluate_matrix_multiplication_operator")
-    s = u(g.node)
-    for label, frags in (
-        ("matrix @ vector takes the matrix's row mode", ["output_format = left.format.modes[left.format.ordering[0]].character"]),
-        ("vector @ matrix takes the matrix's column mode", ["output_format = right.format.modes[right.format.ordering[1]].character"]),
-        (
-            "matrix @ matrix takes row mode of left and column mode of right",
-            [
-                "left_output_format = left.format.modes[left.format.ordering[0]].character",
-                "right_output_format = right.format.modes[right.format.ordering[1]].character",
-                "output_format = left_output_format + right_output_format",
-            ],
-        ),
-    ):
-        ctx.instance("C11.format-rules")
-        alts = [frags, [x.replace("left.format.modes[left.format.ordering[0]]", "left.format.modes[left.format.ordering.index(0)]").replace("right.format.modes[right.format.ordering[1]]", "right.format.modes[right.format.ordering.index(1)]") for x in frags]]
-        if any(all(fr in s for fr in a) for a in alts):
-            ctx.ok("C11.format-rules", f"tensor.py:evaluate_matrix_multiplication_operator:{label}")
-        else:
-            ctx.fail("C11.format-rules", f"tensor.py:evaluate_matrix_multiplication_operator:{label}", "format rule not found")
-
-
-def eval_ifexp(e, env):
-    """Evaluate `"d" if cond else "s"` where cond is and/or of `name == Mode.member`."""
-    def cond(c):
-        if isinstance(c, ast.BoolOp):
-            vals = [cond(v) for v in c.values]
-            return all(vals) if isinstance(c.op, ast.And) else any(vals)
-        if isinstance(c, ast.Compare) and len(c.ops) == 1 and isinstance(c.left, ast.Name):
-            rhs = u(c.comparators[0])
-            if rhs.startswith("Mode."):
-                eq = env[c.left.id] == rhs[5:]
-                return eq if isinstance(c.ops[0], ast.Eq) else (not eq) if isinstance(c.ops[0], ast.NotEq) else None
-        if isinstance(c, ast.UnaryOp) and isinstance(c.op, ast.Not):
-            return not cond(c.operand)
-        raise ValueError(u(c))
-
-    try:
-        return (e.body.value if cond(e.test) else e.orelse.value)
-    except Exception as ex:  # noqa: BLE001
-        return f"? {ex}"
